@@ -67,7 +67,7 @@ func (w *World) startRequest(rseed uint64, plan []int) {
 	w.curReq = rq
 	recN, recRoot, _ := w.recorded(g)
 	rq.rec0N, rq.rec0Root = recN, recRoot
-	mirroredLog := p.Mirror && g == w.logs[0]
+	mirroredLog := p.Mirror && (g == w.logs[0] || p.MirrorAll)
 	kind := "addckpt"
 	if mirroredLog && recN > 0 && r.Chance(3, 5) {
 		kind = "addentries"
